@@ -19,6 +19,9 @@ CLAIMED = {
  'C17': dict(technique='Coq proof over the _pad_psf definition translated from the source + periodic-convolution theorems; exact-oracle correspondence for the FFT and matrix paths',
              text='Theorems for all image and kernel sizes (kernel no larger than the image) over any commutative ring: the generated padding places tap (u,v) at offset (u-kH/2, v-kW/2) wrapped periodically and writes nothing else, preserves the total mass; periodic convolution maps an impulse to the re-centred kernel, multiplies masses, is linear. The FFT blur/restoration, the normal equations, both matrix builders, linearity and channel independence are compared with the exact operator on every size pair.',
              note='Trusted: Coq kernel, qtrans (np.roll / slice-write semantics, cross-checked by execution); the FFT and pinv are oracles compared numerically (1e-9 / 1e-8), not proved.', ref='7/C17'),
+ 'C20': dict(technique='Coq proof over guard functions translated from the raise/assert statements of 37 entry points + exhaustive execution of the (entry point x argument class) table',
+             text='For each modelled entry point the boolean guard is regenerated from the source (explicit raise/assert statements and the implicit shape-unpack guard) and proved equal to the negation of the documented domain predicate for every descriptor (all shapes, option strings, dtypes); in-domain boundary shapes (1x1, 1xn, nx1) are proved accepted. The full table of ~400 cells is executed and compared with the domain table and with the guard evaluated in Coq.',
+             note='Trusted: Coq kernel, qtrans guard translator (condition forms; fail-closed), my reading of the documented domains. Implicit rejections raised inside NumPy are observed, not modelled. Known findings: unknown Schur option strings, PSF larger than the image.', ref='7/C20'),
 }
 checks = []
 for pid, c in sorted(CLAIMED.items()):
